@@ -1,8 +1,55 @@
 ---- MODULE MC_NodeStore ----
-(* Exhaustive configurations of NodeStore.tla.  Option matrix explored from Init:
-   hist partition factor {1, 2, Big} x deduped partition factor {1, 2, Big} x {hashed, hash-skipped}.            *)
+(* Exhaustive configurations of NodeStore.tla (TLC, BFS).  One step = one whole block (Open; Update*; Touch*; Commit)
+   or one store action (Checkpoint, DeleteHist, Reopen).  Universe: 2-nibble keys over {0,1}; the genesis block holds
+   {00,01,10} (extension/full root over a full node and a leaf); every block changes <= MaxTouch keys (fresh value,
+   delete, or touch); every admissible prune round [base, target) at every point.
+
+   Measured (4 workers, this sandbox under load):
+     MC_NodeStore_quick.cfg     4 option sets (hf 1/2, df 1/2/max, hashed / hash-skipped), 3 blocks, no fork
+                                154 255 states generated / 65 844 distinct, depth 11, 23-50 s
+     MC_NodeStore_thorough.cfg  hf 1, df max, 3 blocks + one fork block (minor versions)
+                                2 255 135 generated / 726 641 distinct, ~10 min
+     MC_NodeStore_matrix.cfg    18 option sets (hf 1/2/max x df 1/2/max x hashed/skipped), 3 blocks
+                                807 713 generated / 340 538 distinct, ~5 min
+     MC_NodeStore_as.cfg        account-like trie "a" + storage-like trie "s" (root may come from the deduped space, only
+                                reached through "a", checkpointed only if its root version >= base)
+                                884 939 generated / 318 711 distinct, ~4 min
+   RetainedReadable, PrunedNeverDifferent, NoWrongNode, RootCanonical, PrunedUnreadable hold in all of them.
+
+   The invariants have teeth - each deliberately broken variant below is caught (MC_NodeStore_teeth_*.cfg, not run by
+   the check; `tlc -config MC_NodeStore_teeth_X.cfg MC_NodeStore.tla`):
+     rootdedup  root of a main trie may be served from the deduped space  -> PrunedUnreadable / PrunedNeverDifferent
+                violated after 3 206 states (a pruned root silently reads the checkpointed root's content)
+     filter     checkpoint version filter  >= base  turned into  > base   -> RetainedReadable violated after 3 314 states
+     storage    storage-like trie written exactly at the base not checkpointed -> RetainedReadable, 2 237 states
+     deepfork   a fork that branches below the target survives above it   -> PrunedNeverDifferent, 180 869 states
+     rootcache  a root below the target is still in the root cache        -> NoWrongNode, 182 403 states
+     unaligned  prune target not a multiple of the hist partition factor  -> PrunedNeverDifferent, 1 455 794 states
+                (a root of the half-deleted partition survives and reads through overwritten deduped nodes)
+     inflight   the guarantees are also demanded DURING a prune round (InFlightReads = TRUE)
+                                                                          -> PrunedNeverDifferent, 544 638 states
+   deepfork / rootcache / unaligned show that the preconditions of CanPrune are needed (thor provides them through
+   awaitUntilPrunable + MaxStateHistory and the 256/8192/65536 alignment of partition factor and prune period);
+   inflight is a genuine window in the design: see InFlight in NodeStore.tla and the in-flight probe of check C12.   *)
 EXTENDS NodeStore
 Big == BigFactor
+
+\* one block = a change function over (trie, key): keep / set a fresh value / delete / touch
+Pos == Names \X Keys
+Changes == UNION {{[x \in Pos |-> IF x \in S THEN g[x] ELSE "keep"] : g \in [S -> {"set", "del", "touch"}]}
+                  : S \in {T \in SUBSET Pos : Cardinality(T) <= MaxTouch}}
+BlockStep(p, f) ==
+  \E b \in {V(p.maj + 1, NextMinor(p.maj + 1))} : \E pc \in {Logical(p)} :
+  \E cur \in {[n \in Names |-> [k \in Keys |-> IF f[<<n, k>>] = "set" THEN ValOf(b)
+                                                  ELSE IF f[<<n, k>>] = "del" THEN 0 ELSE pc[n][k]]]} :
+  \E touched \in {[n \in Names |-> {k \in Keys : f[<<n, k>>] # "keep"}]} :
+     /\ \A n \in Names, k \in Keys : f[<<n, k>>] \in {"del", "touch"} => pc[n][k] # 0
+     /\ Block(p, cur, touched)
+MCNext ==
+  \/ \E p \in vers : MayBuildOn(p) /\ \E f \in Changes : BlockStep(p, f)
+  \/ NextStore
+MCSpec == Init /\ [][MCNext]_vars
+
 OptsOne  == {[hf |-> 1, df |-> Big, skip |-> {}]}
 OptsQuick == {[hf |-> 1, df |-> Big, skip |-> {}], [hf |-> 2, df |-> Big, skip |-> {}],
               [hf |-> 1, df |-> 1, skip |-> {"a"}], [hf |-> 2, df |-> 2, skip |-> {"a"}]}
